@@ -1504,6 +1504,29 @@ theorem syncClear_ok (f : Facts) {s : State} (h : MetaOK s) (v : Nat) : MetaOK (
     · exact metaOK_frame h rfl rfl rfl rfl rfl rfl (fun _ hx => hx)
     · exact h
 
+theorem syncFsyncFail_ok (f : Facts) {s : State} (h : MetaOK s) (v : Nat) : MetaOK (syncFsyncFail f s v).1 := by
+  simp only [syncFsyncFail]; split
+  · exact h
+  split
+  · split
+    · exact metaOK_frame h rfl rfl rfl rfl rfl rfl (fun _ hx => hx)
+    · exact h
+  · split
+    · exact metaOK_frame h rfl rfl rfl rfl rfl rfl (fun _ hx => hx)
+    · exact h
+
+theorem foldSyncVol_skel (l : List Nat) (vs : List Volume) : (l.foldl (fun vs w => syncVol w vs) vs).map skel = vs.map skel := by
+  induction l generalizing vs with
+  | nil => rfl
+  | cons x xs ih => simp only [List.foldl_cons]; rw [ih, syncVol_skel]
+
+theorem syncPartial_ok (f : Facts) {s : State} (h : MetaOK s) (oks : List Nat) (fail : Option Nat) : MetaOK (syncPartial f s oks fail).1 := by
+  simp only [syncPartial]
+  repeat' split
+  all_goals first
+    | exact h
+    | exact metaOK_skel h (foldSyncVol_skel oks s.vols) rfl rfl rfl rfl (fun _ hp => hp) h.pendR (fun _ hx => hx)
+
 theorem truncSlots_secs (cut n : Nat) (l : List Slot) (k : Nat) : (truncSlots cut n l k).map (·.sec) = l.map (·.sec) := by
   induction l generalizing k with
   | nil => rfl
@@ -1580,6 +1603,8 @@ theorem step_ok (f : Facts) {s : State} (h : MetaOK s) (op : Op) (hs : Safe s op
   | syncClear v => exact syncClear_ok f h v
   | syncEnd => exact syncEnd_ok h
   | vmResizeStale cur v n moves => exact vmResizeStale_ok f h cur v n moves hs
+  | syncFsyncFail v => exact syncFsyncFail_ok f h v
+  | syncPartial oks fail => exact syncPartial_ok f h oks fail
 
 /-- every step of the history respects `Safe` in the state it is executed in -/
 def SafeRun (f : Facts) : State → List Op → Prop
@@ -2251,6 +2276,15 @@ theorem C08_no_negative_stat (f : Facts) {s : State} (h : MetaOK s) (op : Op) (h
     split at hp
     · split at hp <;> simp at hp
     · simp at hp
+  | syncFsyncFail v =>
+    simp only [step, syncFsyncFail] at hp
+    split at hp
+    · simp at hp
+    · split at hp <;> split at hp <;> simp at hp
+  | syncPartial oks fail =>
+    simp only [step, syncPartial] at hp
+    repeat' split at hp
+    all_goals simp at hp
   | vmResizeStale cur v n moves =>
     simp only [step, vmResizeStale] at hp
     split at hp
